@@ -31,6 +31,12 @@
 
 // память для блобов выделяется страницами
 #define BLOB_PAGE_SIZE 1024
+#if defined(BEE2_VERIF) && defined(BEE2_VERIF_EXACT_BLOB)
+	/* verification hook: exact-size blobs, so that sanitizers 
+	   see overruns of computed keep/deep sizes */
+	#undef BLOB_PAGE_SIZE
+	#define BLOB_PAGE_SIZE 1
+#endif
 
 // требуется страниц
 #define blobPageCount(size)\
